@@ -34,7 +34,7 @@ META = {
             'raising call leaves closed=true, resumable=false, mapped classes write the fatal alert first, only documented '
             'classes for specified parser/record exceptions; (3) parser loops strictly consume input, work and allocation '
             'linear in the input, decompression bounded under the assumed decompressor contract. Each model is compared '
-            'with the running implementation (vm_compute); the direct oracle mutates the peer traffic of 21 handshake '
+            'with the running implementation (vm_compute); the direct oracle mutates the peer traffic of 24 handshake '
             'flavours in both roles against live endpoints.',
     'note': 'Partial: crash-freedom is proved only for the translated ClientHello region; the rest of the handshake '
             'coroutines is covered by the live mutation search only. Trusted: Coq kernel + vm_compute; '
